@@ -33,7 +33,7 @@ var nativeModels map[string]nativeModel
 func stringsToLower(s string) string { return strings.ToLower(s) }
 
 func init() {
-	nativeModels = map[string]nativeModel{
+	base := map[string]nativeModel{
 		"strings.ToLower": func(in *Interp, _ *frame, a []Value) (Value, bool) {
 			return in.strToLower(a[0].(*Str)), true
 		},
@@ -389,6 +389,12 @@ func init() {
 			}
 			return nil, false
 		},
+	}
+	if nativeModels == nil {
+		nativeModels = map[string]nativeModel{}
+	}
+	for k, v := range base {
+		nativeModels[k] = v
 	}
 }
 
